@@ -155,17 +155,31 @@ def write_results(results):
         old[r["name"]] = r
     allr = [old[k] for k in sorted(old)]
     json.dump(allr, open(path, "w"), indent=1)
+    groups = [
+        ("The four repaired defects re-introduced, and the non-termination test mutant (`/verif/mutants/`)", lambda n: n[0] in "DT"),
+        ("Seeded by independent sub-agents, first round (`/verif/seeded/CNN-k`)", lambda n: n.startswith("C") and "w" not in n),
+        ("Second round (`CNNw2-k`)", lambda n: n.startswith("C") and "w2" in n),
+        ("Third round (`CNNw4-k`)", lambda n: n.startswith("C") and "w4" in n),
+        ("Behaviour-preserving refactorings (`/verif/benign/`): every check must stay silent", lambda n: n.startswith("benign-")),
+        ("Mechanical single-token mutants that survive the repository's own tests (`/verif/mechanical/`, run until the first check fires)", lambda n: n.startswith("mech-")),
+    ]
     with open(os.path.join(VERIF, "SELFTEST.md"), "w") as f:
-        f.write("# Which checks catch which seeded changes\n\n")
-        f.write("Produced by `tools/selftest.py` (scratch copies of /repo and /verif; quick tier unless noted). `X` = the check exits 1 with a VIOLATION line, `.` = silent, `?` = inconclusive (exit 2).\n\n")
-        f.write("| change | declared | " + " | ".join(p[1:] for p in PROPS) + " |\n")
-        f.write("|---|---|" + "---|" * len(PROPS) + "\n")
-        for r in allr:
-            cells = []
-            for p in PROPS:
-                x = r["results"].get(p)
-                cells.append(" " if x is None else ("X" if x["exit"] == 1 else "." if x["exit"] == 0 else "?"))
-            f.write("| %s | %s | %s |\n" % (r["name"], r.get("declared_property") or "", " | ".join(cells)))
+        f.write("# Which checks catch which changes\n\n")
+        f.write("Produced by `tools/selftest.py` on scratch copies of /repo and /verif (quick tier). `X` = the check exits 1 with a VIOLATION line, `.` = silent, `?` = inconclusive (exit 2), blank = not run against this change. The *declared* column is the property the change was written to break.\n")
+        for title, pred in groups:
+            rows = [r for r in allr if pred(r["name"])]
+            if not rows:
+                continue
+            caught = sum(1 for r in rows if any(x["exit"] == 1 for x in r["results"].values()))
+            f.write("\n## %s\n\n%d changes, %d caught by at least one check.\n\n" % (title, len(rows), caught))
+            f.write("| change | declared | " + " | ".join(p[1:] for p in PROPS) + " |\n")
+            f.write("|---|---|" + "---|" * len(PROPS) + "\n")
+            for r in rows:
+                cells = []
+                for p in PROPS:
+                    x = r["results"].get(p)
+                    cells.append(" " if x is None else ("X" if x["exit"] == 1 else "." if x["exit"] == 0 else "?"))
+                f.write("| %s | %s | %s |\n" % (r["name"], r.get("declared_property") or "", " | ".join(cells)))
     return 0
 
 
